@@ -24,6 +24,7 @@ GapsDef == %s
 RInit == Init /\\ log = <<>>
 RNext == \\/ \\E f \\in Formulas : Parse(1, f) /\\ log' = Append(log, [a |-> "parse", phi |-> f])
          \\/ PastifyA(1) /\\ log' = Append(log, [a |-> "pastify"])
+         \\/ Repastify(1) /\\ log' = Append(log, [a |-> "pastify"])
          \\/ \\E s \\in [ms[1].cfg.vars -> Vals], g \\in Gaps :
                Update(1, s, g) /\\ log' = Append(log, [a |-> "update", s |-> s, t |-> NextStamp(ms[1], g)])
          \\/ Reset(1) /\\ log' = Append(log, [a |-> "reset"])
